@@ -263,14 +263,20 @@ def run(ctx):
                      "free_switch_cost": 1},
             "budget": 3000 if ctx.quick else 40000,
         })
-    ctx.pmap(H.shard, specs)
+    if not ctx.quick:
+        specs += H.line_variants(
+            specs, lambda p: p.get("race") or len(p.get("late", ())) == 2
+            or (p.get("late") and p["late"][0][2] == "service" and p.get("late_at") == 0.0))
+    ctx.pmap(H.shard, specs, cost=lambda s: s["opts"].get("line_points", False))
     H.finish(
         ctx, specs,
         rule="submitting context x target flavour x adopt/service x arguments x submission "
              "time; queued payloads and services 0..2 per flavour; pairs of submitters; adopt "
              "racing a shutdown with a shielded cleanup; every schedule within the deviation "
              "bound; non-trivial = more than one schedule executed",
-        bounds={"deviation_bound": bound, "granularity": "synchronisation operations",
+        bounds={"deviation_bound": bound, "granularity": "synchronisation operations" + (
+            "" if ctx.quick else "; source lines of the runner package at bound 1 for the "
+            "race, two-submitter and late-service scenarios"),
                 "polling_cycles": ">= 5 before the harness stops the runtime at t=3"},
         assumptions=["adopt after the blocking run has completely ended is not driven; kwargs "
                      "named payload/flavour cannot be passed through adopt"],
